@@ -304,20 +304,24 @@ class ElectronAnalyzer(ABC):
                 # scf_summary will be overwritten
                 old_level = calc.grids.level
                 calc.grids.level = grids_level
-                calc.grids.build()
-                if hasattr(calc, "with_df") and hasattr(calc.with_df, "grids"):
-                    calc.with_df.build()
-                if hasattr(calc, "_numint") and hasattr(calc._numint, "build"):
-                    calc._numint.build()
-                e_tot = calc.energy_tot(analyzer.dm)
-                calc.grids.level = old_level
-                calc.grids.build()
-                # the objects set up above for the temporary grids must not
-                # outlive them: calc is used again on its original grids
-                if hasattr(calc, "with_df") and hasattr(calc.with_df, "grids"):
-                    calc.with_df.build()
-                if hasattr(calc, "_numint") and hasattr(calc._numint, "build"):
-                    calc._numint.build()
+                try:
+                    calc.grids.build()
+                    if hasattr(calc, "with_df") and hasattr(calc.with_df, "grids"):
+                        calc.with_df.build()
+                    if hasattr(calc, "_numint") and hasattr(calc._numint, "build"):
+                        calc._numint.build()
+                    e_tot = calc.energy_tot(analyzer.dm)
+                finally:
+                    # also when the evaluation above fails or is interrupted:
+                    # calc must not be left on the temporary grids
+                    calc.grids.level = old_level
+                    calc.grids.build()
+                    # the objects set up above for the temporary grids must not
+                    # outlive them: calc is used again on its original grids
+                    if hasattr(calc, "with_df") and hasattr(calc.with_df, "grids"):
+                        calc.with_df.build()
+                    if hasattr(calc, "_numint") and hasattr(calc._numint, "build"):
+                        calc._numint.build()
             else:
                 e_tot = calc.e_tot
             analyzer._data["xc_orig"] = calc.xc
